@@ -350,3 +350,19 @@ Definition crosses (m : rmode) (d : nat) (x v : Q) : bool :=
 (* the double-rounding class: the 28 digit quotient is not the count itself and a boundary separates (or touches) the two *)
 Definition dr_class (prec : nat) (m : rmode) (d : nat) (x : Q) : bool :=
   let v := sig_round prec x in negb (Qeq_bool v x) && crosses m d x v.
+
+(* the class EXACTLY, for the three HALF modes: a half strictly between the count and its quotient, or one of the two IS a half and the tie
+   rule of the mode sends it away from the other (Props/C13.v C13_rounded_half_class_exact) *)
+Definition is_odd_int (t : Q) : bool := Qeq_bool t (inject_Z (Qfloor t)) && Z.odd (Qfloor t).
+Definition half_inside (d : nat) (lo hi : Q) : bool :=
+  let jl := (Qfloor (lo * (2 * pow10 d)) + 1)%Z in
+  let jh := (Qceiling (hi * (2 * pow10 d)) - 1)%Z in
+  (jl <=? jh)%Z && ((jl <? jh)%Z || Z.odd jl).
+Definition crosses_half (m : rmode) (d : nat) (x v : Q) : bool :=
+  let lo := if Qle_bool x v then x else v in
+  let hi := if Qle_bool x v then v else x in
+  half_inside d lo hi
+  || (is_odd_int (lo * (2 * pow10 d)) && negb (Qle_bool lo (round_q m d lo)))
+  || (is_odd_int (hi * (2 * pow10 d)) && negb (Qle_bool (round_q m d hi) hi)).
+Definition dr_class_half (prec : nat) (m : rmode) (d : nat) (x : Q) : bool :=
+  let v := sig_round prec x in negb (Qeq_bool v x) && crosses_half m d x v.
